@@ -480,7 +480,7 @@ struct optional<T&> {
     template <typename U>
         requires(not is_same_v<remove_cvref_t<U>, optional>)
     constexpr explicit(not is_convertible_v<U, T>) optional(optional<U> const& rhs)
-        : _ptr(etl::addressof(*rhs))
+        : _ptr(rhs.has_value() ? etl::addressof(*rhs) : nullptr)
     {
     }
 
